@@ -7,7 +7,7 @@ from lib.tlaval import to_tla
 
 LEVEL = 'model_checking'
 EPS = 1e-6
-ALL_ACTS = ['modereq', 'addplayer', 'score', 'var', 'eb', 'lb', 'shot', 'ach', 'mode', 'timer', 'endgame', 'tv', 'hold', 'late']
+ALL_ACTS = ['modereq', 'addplayer', 'score', 'var', 'pvar', 'eb', 'lb', 'shot', 'ach', 'mode', 'timer', 'endgame', 'tv', 'hold', 'late']
 INTVARS = ['score', 'bonus', 'ball', 'extra_balls', 'shot_sh1', 'shot_sh2', 'shot_sh3', 'shot_sh1_enabled',
            'shot_sh2_enabled', 'gm2_t2_tick']
 TVARS = ['ini', 'sel']         # player variables holding strings / None / ints (Players!TVars)
@@ -138,6 +138,25 @@ variable_player:
     bonus: 1
   award_eb:
     extra_balls: 1
+  add_score_p1:
+    score:
+      int: 7
+      player: 1
+  add_score_p2:
+    score:
+      action: add
+      int: 7
+      player: 2
+  set_bonus_p1:
+    bonus:
+      action: set
+      int: 9
+      player: 1
+  set_bonus_p2:
+    bonus:
+      action: set
+      int: 9
+      player: 2
 """)
     with open(d + '/modes/gm2/config/gm2.yaml', 'w') as f:
         f.write("""#config_version=6
@@ -227,15 +246,16 @@ MC_RUNS = [
     ('gm2+timer', [dict(bpg=2, maxp=2)], ['addplayer', 'mode', 'timer', 'eb'], (5, 7), (3, 4), 1, 1),
     ('held-stop', [dict(bpg=2, maxp=2)], ['addplayer', 'mode', 'hold', 'late', 'lb', 'eb', 'endgame'], (4, 6), 0, 1, 1),
     ('typed-vars', [dict(bpg=2, maxp=2)], ['addplayer', 'tv', 'endgame'], (3, 4), 0, 1, 0),
+    ('targeted-vars', [dict(bpg=2, maxp=3), dict(bpg=2, maxp=1)], ['addplayer', 'pvar', 'var', 'score'], (4, 5), 0, 1, 0),
 ]
 
 # schedule generation profiles: (action families, ops per ball, share of the schedules)
 GEN_PROFILES = [
     ([a for a in ALL_ACTS if a not in ('tv', 'late')], 6, 0.27),
     (['modereq', 'addplayer', 'lb', 'mode', 'score', 'eb', 'hold', 'late'], 5, 0.23),
-    (['modereq', 'addplayer', 'shot', 'ach', 'var', 'endgame', 'eb'], 5, 0.18),
+    (['modereq', 'addplayer', 'shot', 'ach', 'var', 'pvar', 'endgame', 'eb'], 5, 0.18),
     (['modereq', 'addplayer', 'mode', 'timer', 'hold'], 6, 0.22),
-    (['addplayer', 'tv', 'var', 'endgame', 'eb'], 5, 0.10),
+    (['addplayer', 'tv', 'var', 'pvar', 'endgame', 'eb'], 5, 0.10),
 ]
 
 # ---- execution on real mpf -------------------------------------------------------------------------------------------
@@ -319,6 +339,7 @@ class GameRun:
         self.stopq = []         # held mode_gm2_stopping queue events
         self.arm = False        # hold the next mode_gm2_stopping
         self.ev = []
+        self.fb = False
         for n in INTVARS:
             self.m.events.add_handler('player_' + n, self._mk(n), priority=1)
         for n in TVARS:
@@ -363,6 +384,8 @@ class GameRun:
         rec = dict(a)
         if a['op'] == 'latereq':        # whether the request was granted is observed, not prescribed
             rec['run'] = bool(self.m.modes[a['m']].active)
+        if a['op'] == 'pvar':           # an entry for a player who has not joined: dropped or applied to the player who is up
+            rec['fb'] = self.fb
         rec['pl'] = [project_player(p, i) for i, p in enumerate(g.player_list)] if g else []
         rec['live'] = project_live(self.m)
         rec['evs'] = self.evlog[:]
@@ -397,6 +420,13 @@ class GameRun:
             m.events.post('score_100')
         elif op == 'var':
             m.events.post('set_bonus_5' if a['kind'] == 'set' else 'add_bonus')
+        elif op == 'pvar':
+            var = 'bonus' if a['kind'] == 'set' else 'score'
+            before = m.game.player.vars.get(var) if a['n'] > len(m.game.player_list) else None
+            up = m.game.player
+            m.events.post('%s_p%d' % ('set_bonus' if a['kind'] == 'set' else 'add_score', a['n']))
+            self.settle()
+            self.fb = a['n'] > len(m.game.player_list) and up.vars.get(var) != before
         elif op == 'awardeb':
             m.events.post('award_eb')
         elif op == 'lb':
@@ -518,6 +548,13 @@ def handmade():
                     tv(1, 'sel', 'i:0'), tv(2, 'sel', 'i:0'), tv(2, 'sel', 'i:1'), tv(1, 'ini', 'n'), tv(1, 'ini', 'i:0'), BE, TS,
                     tv(2, 'ini', 's:'), tv(2, 'ini', 'i:0'), tv(1, 'ini', 's:'), tv(2, 'sel', 'n'), tv(2, 'sel', 'n'), tv(2, 'sel', 's:'),
                     tv(2, 'sel', 'i:0'), BE, TS, tv(1, 'ini', 'i:1'), A('endgame'), NG, TS, tv(1, 'ini', 's:'), tv(1, 'sel', 's:'), BE]))
+    # variable_player entries with an explicit target player, fired during everybody's turn (and before the target joined)
+    pv = lambda kind, n: A('pvar', kind=kind, n=n, fb=False)
+    allpv = [pv('add', 1), pv('add', 2), pv('set', 2), pv('set', 1)]
+    out.append((0, [NG, TS, pv('add', 2), pv('set', 2), pv('add', 1), AP, pv('add', 2), AP, A('score'), pv('set', 1), BE, TS] + allpv +
+                   [A('var', kind='add'), BE, TS] + allpv + [A('score'), pv('add', 2), BE, TS, pv('add', 2), pv('set', 2), A('var', kind='set'),
+                    pv('add', 1), BE, TS, pv('add', 1), pv('set', 1), pv('add', 2), BE, TS] + allpv + [BE]))
+    out.append((2, [NG, TS, pv('add', 1), pv('add', 2), pv('set', 2), AP, pv('set', 1), BE, TS, pv('add', 2), pv('add', 1), BE]))
     return out
 
 
@@ -619,6 +656,13 @@ def run(ctx):
         'total': sum(1 for t in traces for e in t['ev'] if e['op'] == 'settv'),
         'other player': sum(1 for t in traces for k, e in enumerate(t['ev']) if e['op'] == 'settv' and e['q'] != e.get('cur')),
         'events seen': sum(len(e.get('tevs', [])) for t in traces for e in t['ev'] if e['op'] == 'settv')}
+    pv = [(e, t['ev'][k - 1].get('cur', 0)) for t in traces for k, e in enumerate(t['ev']) if k and e['op'] == 'pvar']
+    ctx.coverage['variable_player_entries_with_target_player'] = {
+        'total': len(pv), 'target is up': sum(1 for e, c in pv if e['n'] == c),
+        'player after the target is up': sum(1 for e, c in pv if e['n'] == c - 1),
+        'other player (not up)': sum(1 for e, c in pv if e['n'] != c and e['n'] <= len(e['pl'])),
+        'target has not joined': sum(1 for e, c in pv if e['n'] > len(e['pl'])),
+        'events seen': sum(len(e.get('evs', [])) for e, c in pv)}
     ctx.coverage['games_with_players'] = {str(n): sum(1 for t in traces if max([len(e.get('pl', [])) for e in t['ev']] or [0]) == n)
                                           for n in (1, 2, 3)}
     ctx.sample({'kind': 'player-trace', 'cfg': traces[0]['cfg'],
@@ -660,6 +704,9 @@ def run(ctx):
         'string/None/int valued player variables are written through the Player API (player[var] = v / setattr), also for a player '
         'who is not up; a write of None posts no event (player.py announces ints, floats and strings only, as its docstring says); '
         'floats are not exercised (not representable in the trace format)',
+        'variable_player entries with an explicit target (player: 1 / player: 2; add to score, set bonus) live in game mode gm1; '
+        'what such an entry does when the named player has not joined is taken from the observation (dropped, or applied to '
+        'the player who is up); show "variables" steps are not exercised',
         'the stop of gm2 is held by a test handler of the mode_gm2_stopping queue event (stands for a show / slide / queue_relay '
         'played out before the mode is torn down) and let go by the release step',
         'whether a start request for a game mode is granted while the ended ball waits for the held stop is taken from the '
